@@ -71,6 +71,40 @@ def rank_exact(rows):
     return rk
 
 
+def enumerate_vertices(names, ineq, eq):
+    """Vertices of {x : coef.x <= rhs (ineq), coef.x == rhs (eq)} by exact basis enumeration.
+    ineq/eq: lists of (dict name->Fraction, rhs).  The polyhedron is assumed bounded."""
+    d = len(names)
+    rows_eq = [[coef.get(n, Fraction(0)) for n in names] for coef, _ in eq]
+    rhs_eq = [r for _, r in eq]
+    rows_in = [[coef.get(n, Fraction(0)) for n in names] for coef, _ in ineq]
+    rhs_in = [r for _, r in ineq]
+    eq_sel, cur = [], []
+    for i, r in enumerate(rows_eq):
+        if rank_exact(cur + [r]) > len(cur):
+            cur.append(r)
+            eq_sel.append(i)
+    need = d - len(eq_sel)
+    verts, seen = [], set()
+    if len(rows_in) < need:
+        raise HarnessError('set is not bounded (too few constraints)')
+    for comb in itertools.combinations(range(len(rows_in)), need):
+        A = [rows_eq[i] for i in eq_sel] + [rows_in[i] for i in comb]
+        b = [rhs_eq[i] for i in eq_sel] + [rhs_in[i] for i in comb]
+        x = solve_exact(A, b)
+        if x is None:
+            continue
+        key = tuple(x)
+        if key in seen:
+            continue
+        ok = all(sum(a * v for a, v in zip(rows_in[i], x)) <= rhs_in[i] for i in range(len(rows_in)))
+        ok = ok and all(sum(a * v for a, v in zip(rows_eq[i], x)) == rhs_eq[i] for i in range(len(rows_eq)))
+        if ok:
+            seen.add(key)
+            verts.append(dict(zip(names, x)))
+    return verts
+
+
 # ------------------------------------------------------------------ sets
 class USet:
     """A set of realisations described by OCons over the z-names `names`."""
@@ -161,41 +195,8 @@ class USet:
         if self._verts is not None:
             return self._verts
         ineq, eq = self.hrep()
-        names = self.names
-        d = len(names)
-        rows_eq = [[coef.get(n, Fraction(0)) for n in names] for coef, _ in eq]
-        rhs_eq = [r for _, r in eq]
-        req = rank_exact(rows_eq) if rows_eq else 0
-        need = d - req
-        rows_in = [[coef.get(n, Fraction(0)) for n in names] for coef, _ in ineq]
-        rhs_in = [r for _, r in ineq]
-        # pick an independent subset of equalities
-        eq_sel = []
-        cur = []
-        for i, r in enumerate(rows_eq):
-            if rank_exact(cur + [r]) > len(cur):
-                cur.append(r)
-                eq_sel.append(i)
-        verts = []
-        seen = set()
-        if len(rows_in) < need:
-            raise HarnessError('set is not bounded (too few constraints)')
-        for comb in itertools.combinations(range(len(rows_in)), need):
-            A = [rows_eq[i] for i in eq_sel] + [rows_in[i] for i in comb]
-            b = [rhs_eq[i] for i in eq_sel] + [rhs_in[i] for i in comb]
-            x = solve_exact(A, b)
-            if x is None:
-                continue
-            key = tuple(x)
-            if key in seen:
-                continue
-            ok = all(sum(a * v for a, v in zip(rows_in[i], x)) <= rhs_in[i] for i in range(len(rows_in)))
-            ok = ok and all(sum(a * v for a, v in zip(rows_eq[i], x)) == rhs_eq[i] for i in range(len(rows_eq)))
-            if ok:
-                seen.add(key)
-                verts.append(dict(zip(names, x)))
-        self._verts = verts
-        return verts
+        self._verts = enumerate_vertices(self.names, ineq, eq)
+        return self._verts
 
     # ---- ball / ellipsoid:  single constraint  k*|L z + c|_2 + off <= 0  (or sumsqr / quad forms)
     def ellipsoid(self):
